@@ -21,6 +21,7 @@ PROBES = {
     "p7": "f > c:@T",
     "p8": "f > c",
     "p9": "f(a as ta)",
+    "p10": ("f > a", "f(!a)"),
     "bad": "f > zzz",
     "bad2": "g > #nope",
 }
@@ -70,7 +71,7 @@ def run_case(case):
                     raise KeyError("listener")
             p.subscribe(boom)
         else:
-            p = Probe(text, env=ENV)
+            p = Probe(*text, env=ENV) if isinstance(text, tuple) else Probe(text, env=ENV)
             p.subscribe(lambda data, pid=pid: recv[pid].append(sorted([k, v] for k, v in data.items())))
         probes[pid] = p
     steps = []
